@@ -79,11 +79,22 @@ impl Sys {
                 match self.r.as_mut() {
                     None => "na".into(),
                     Some(r) => {
-                        let mut store = vec![0u8; k];
+                        // the caller's buffer already holds `pre` bytes (as `read_exact` / `copy` do on a second
+                        // round): the channel must append behind them and leave them alone
+                        let pre = k % 3;
+                        let mut store = vec![0u8; k + pre];
                         let mut buf = ReadBuf::new(&mut store);
+                        buf.put_slice(&vec![0xEEu8; pre]);
                         let mut cx = Context::from_waker(&rw);
                         match Pin::new(r).poll_read(&mut cx, &mut buf) {
-                            Poll::Ready(Ok(())) => format!("bytes {}", hex(buf.filled())),
+                            Poll::Ready(Ok(())) => {
+                                let f = buf.filled();
+                                if f.len() < pre || f[..pre].iter().any(|b| *b != 0xEE) {
+                                    format!("bytes {} readbuf-prefix-damaged", hex(f))
+                                } else {
+                                    format!("bytes {}", hex(&f[pre..]))
+                                }
+                            }
                             Poll::Ready(Err(_)) => "err".into(),
                             Poll::Pending => "pending".into(),
                         }
